@@ -2373,6 +2373,14 @@ class AffineReexpression(Contract):
             self._chain(s, result, real_vc, vc_)
         except _Abandon:
             real_vc.taint('affine lemma chain abandoned at step "%s" (not provable within the look-ahead budget)' % s.blocked[0])
+            # ONE fail-closed obligation, stated without the path condition (finding a model of the quantified non-linear path condition costs z3
+            # 15-35 s per path): it can never be discharged, and being tagged over-approximate it is a VIOLATION only with a native failing input
+            saved = real_vc.pc
+            real_vc.pc = []
+            try:
+                real_vc.oblige('post[affine re-expression: proof step "%s" abandoned; decided only by a native failing input]' % s.blocked[0], z3.BoolVal(False))
+            finally:
+                real_vc.pc = saved
         return []
 
     def _chain(self, s, result, vc, steps):
@@ -2421,10 +2429,6 @@ class AffineReexpression(Contract):
         out = [('two result objects, one adjustment object, one regression and one row mask per call', z3.BoolVal(self._ok(s, result))),
                ('each regression is ordinary least squares with an intercept (LinearRegression constructed with its default estimator settings)',
                 z3.BoolVal(len(s.models) == 2 and _bi.all(mm.plain for mm in s.models)))]
-        if s.has('blocked') and s.blocked:
-            out.append(('affine re-expression: proof step "%s" (abandoned; decided only by a native failing input)' % s.blocked[0],
-                        s.blocked[1] if cur().fin is not None else z3.BoolVal(False)))
-            return out
         if not s.has('ready') or not s.ready:
             return out
         r1, r2 = (mk.kw['outputs']['p0'] for mk in s.Sample.made)
